@@ -115,7 +115,7 @@ func init() {
 		return showTexts(sqlTexts(args[0], decodeDump(args[1], arg(args, 2))))
 	})
 
-	core.Register("sqlsafe", func(args []string) string {
+	sqlsafe := func(args []string) string {
 		r := decodeDump(args[1], arg(args, 2))
 		texts := sqlTexts(args[0], r)
 		var vs []string
@@ -138,7 +138,10 @@ func init() {
 			}
 		}
 		return firstBad(vs)
-	})
+	}
+	core.Register("sqlsafe", sqlsafe)
+	// sqlrows: the same check on one-column tables of every row count 0..2100
+	core.Register("sqlrows", sqlsafe)
 
 	core.Register("csvtext", func(args []string) string {
 		return showTexts(csvTexts(args[0], decodeDump(args[1], arg(args, 2))))
